@@ -67,7 +67,8 @@ REQUIRED_TAGS = ['op=insert', 'op=refine', 'op=raise', 'op=lower', 'op=reverse',
                  'op=split', 'op=append', 'op=makeper', 'op=lowerper', 'op=affine', 'op=section', 'op=extrude', 'op=clone', 'op=identical',
                  'pardim=1', 'pardim=2', 'pardim=3', 'rational', 'periodic-dir', 'len>=8', 'pool>=3', 'err:ValueError',
                  'ctor=valid-open', 'ctor=valid-periodic', 'ctor=decreasing', 'ctor=too-few', 'ctor=order<=0',
-                 'ctor=periodic-mismatch', 'ctor=within-tol', 'ctor=beyond-tol', 'ctor=gap', 'wf=true']
+                 'ctor=periodic-mismatch', 'ctor=within-tol', 'ctor=beyond-tol', 'ctor=gap', 'wf=true',
+                 'stream=small-periodic', 'small-periodic:n<p+k', 'small-periodic:n+1<=p+k']
 ASSUMPTIONS = ['histories are generated with the real library in the loop (state-aware choice of arguments); the generated '
                'specs are concrete and replayable']
 
@@ -359,6 +360,11 @@ def _extras(sp, obj):
             out.append('clone() shares state with the object')
     except Exception as e:  # noqa: BLE001
         out.append('clone() raised %s: %s' % (exc_kind(e), str(e)[:120]))
+    for d, b in enumerate(obj.bases):
+        try:
+            sp.BSplineBasis(b.order, np.array(b.knots, dtype=float), b.periodic)
+        except Exception as e:  # noqa: BLE001
+            out.append('basis %d cannot be re-constructed from its own order/knots/periodic: %s: %s' % (d, exc_kind(e), str(e)[:80]))
     try:
         r = type(obj)(*obj.bases, obj.controlpoints, obj.rational, raw=True)
         if not _same_obs(_observables(r), _observables(obj)) or r.dimension != obj.dimension:
@@ -954,9 +960,55 @@ def _focus_cases(rng):
     return out
 
 
+def _periodic_spec(rng, p, k, n_interior, uniform):
+    """Periodic basis of order p, continuity k, simple interior knots: n = p-1-k + n_interior functions."""
+    mu0 = p - 1 - k
+    uniq = [float(x) for x in range(n_interior + 2)] if uniform else gen.increasing(rng, n_interior + 2, uniform=False)
+    a, T = uniq[0], uniq[-1] - uniq[0]
+    pattern = [a] * mu0 + uniq[1:-1]
+    L = len(pattern)
+    knots = [pattern[j % L] + T * (j // L) for j in range(-(k + 1), L + mu0 + k + 1)]
+    return {'order': p, 'knots': knots, 'periodic': k}
+
+
+def _small_periodic_cases(rng, tier):
+    """insert_knot at EVERY span (and every interior knot) of small periodic directions: every (p, k), the number
+    of functions from the minimum up to p+k+1 (below p+k the two ghost regions of the knot vector overlap).
+    Only STRUCTURE is judged here (knots, shapes, ghost periodicity, re-construction, evaluation does not raise);
+    the geometry defect of these bases is C04's known finding."""
+    out = []
+    for p in range(2, 6):
+        for k in range(0, p - 1):
+            mu0 = p - 1 - k
+            for n in range(max(mu0, 1), p + k + 2):
+                n_int = n - mu0
+                for uniform in ([True] if tier == 'quick' and n_int > 3 else [True, False]):
+                    b = _periodic_spec(rng, p, k, n_int, uniform)
+                    if len(b['knots']) < 2 * p:
+                        continue
+                    refs = [['m', j, f] for j in range(n_int + 1) for f in ([0.5] if tier == 'quick' else [0.5, 0.25])]
+                    refs += [['k', j] for j in range(0, n_int + 1)]
+                    for ref in refs:
+                        rational = rng.random() < 0.3
+                        if rng.random() < 0.2:
+                            b2 = gen.open_basis(rng, rng.choice([2, 3]), n_interior=rng.choice([0, 1]))
+                            bases = [b, b2] if rng.random() < 0.5 else [b2, b]
+                            d = bases.index(b)
+                            shape = [gen.basis_info(x)['n'] for x in bases]
+                            o = {'bases': bases, 'cps': gen.rand_cps(rng, shape, 3 + rational, rational), 'rational': rational}
+                        else:
+                            d = 0
+                            o = {'bases': [b], 'cps': gen.rand_cps(rng, [n], 2 + rational, rational), 'rational': rational}
+                        ops = [{'op': 'insert', 'i': 0, 'dir': d, 'refs': [ref]}]
+                        if rng.random() < 0.3:
+                            ops.append({'op': 'insert', 'i': 0, 'dir': d, 'refs': [['m', rng.randrange(n_int + 2), 0.5]]})
+                        out.append({'kind': 'hist', 'pool': [o], 'ops': ops, 'stream': 'small-periodic'})
+    return out
+
+
 def generate(rng, tier):
     sp = _sp()
-    specs = _focus_cases(rng)
+    specs = _focus_cases(rng) + _small_periodic_cases(rng, tier)
     nh = 150 if tier == 'quick' else 700
     for c in range(nh):
         if tier == 'quick':
@@ -1230,8 +1282,10 @@ def classify(s, res=None):
             if f == CLASS_LOWER_WEIGHTS:
                 if fs and n == upto and 'non-positive weight' in first:
                     return f
-            elif f in (CLASS_REVERSE_PER, CLASS_EXTRUDE_MUT):
-                continue           # fixed in /repo (the model mirrors the fixed code); kept as coverage flags only
+            elif f in (CLASS_REVERSE_PER, CLASS_EXTRUDE_MUT, CLASS_PER_SMALL, CLASS_CURVE_1D):
+                # coverage flags only: the first two and the last are fixed in /repo; the known defect of small
+                # periodic bases is GEOMETRIC (C04/C07/C08) - a structural failure there must not be masked
+                continue
             elif f == CLASS_MAKEPER_SHORT:
                 if fs and n == upto:
                     return f
@@ -1261,6 +1315,12 @@ def tags(s, res):
             t.add('order-1-dir')
     n = len(s['ops'])
     t.add('len>=8' if n >= 8 else 'len<8')
+    if s.get('stream'):
+        t.add('stream=' + s['stream'])
+        b = next(x for o in s['pool'] for x in o['bases'] if x['periodic'] >= 0)
+        info = gen.basis_info(b)
+        t.add('small-periodic:n%sp+k' % ('<' if info['n'] < info['p'] + info['k'] else '>='))
+        t.add('small-periodic:n+1%sp+k' % ('<=' if info['n'] + 1 <= info['p'] + info['k'] else '>'))
     if n >= 30:
         t.add('len>=30')
     if isinstance(iv, dict):
